@@ -19,6 +19,7 @@ import (
 	v2 "mosn.io/mosn/pkg/config/v2"
 	_ "mosn.io/mosn/pkg/filter/network/streamproxy"
 	"mosn.io/mosn/pkg/server"
+	"mosn.io/mosn/pkg/upstream/cluster"
 	testutil "mosn.io/mosn/test/util"
 	tmosn "mosn.io/mosn/test/util/mosn"
 	"verif/vh"
@@ -106,7 +107,8 @@ func waitUp(addr string) {
 	vh.Must(fmt.Errorf("listener %s did not come up", addr), "mosn start")
 }
 
-func runE2E(p *pki, mock *sdsMock, groups []*group, ups []tcase, out string, par int) {
+func runE2E(p *pki, mock *sdsMock, groups []*group, upCases []tcase, out string, par int) {
+	ups := upJobs(upCases)
 	plainLn, err := net.Listen("tcp", "127.0.0.1:0")
 	vh.Must(err, "echo listen")
 	defer plainLn.Close()
@@ -135,7 +137,15 @@ func runE2E(p *pki, mock *sdsMock, groups []*group, ups []tcase, out string, par
 	// stock TLS echo servers, one per upstream certificate
 	tlsSrv := map[string]string{}
 	upAddr := make([]string, len(ups))
-	for j, tc := range ups {
+	upLives := make([]*upLive, len(ups))
+	upCfg0 := make([]vh.Ev, len(ups))
+	mkCluster := func(j int, cfg *v2.TLSConfig) v2.Cluster {
+		cl := testutil.NewBasicCluster(fmt.Sprintf("up-%d", j), []string{upAddr[j]})
+		cl.TLS = *cfg
+		return cl
+	}
+	for j, job := range ups {
+		tc := job.tc
 		names := make([]string, len(tc.Cert.Names))
 		for i, n := range tc.Cert.Names {
 			names[i] = dotted(n)
@@ -170,9 +180,9 @@ func runE2E(p *pki, mock *sdsMock, groups []*group, ups []tcase, out string, par
 		}
 		upAddr[j] = tlsSrv[key]
 		cname := fmt.Sprintf("up-%d", j)
-		cl := testutil.NewBasicCluster(cname, []string{tlsSrv[key]})
-		cl.TLS = v2.TLSConfig{Status: true, ServerName: dotted(tc.Cfg.Sn), InsecureSkip: tc.Cfg.Skip, CACert: p.caPEM(tc.Cfg.Ca)}
-		clusters = append(clusters, cl)
+		upLives[j] = newUpLive(p, mock, job, cname)
+		upCfg0[j] = upLives[j].cfgEvent(upLives[j].cur)
+		clusters = append(clusters, mkCluster(j, upLives[j].tlsConfig()))
 		listeners = append(listeners, testutil.NewListener(fmt.Sprintf("u%d", j), addrs[len(groups)+j], []v2.FilterChain{tcpProxyChain(cname)}))
 	}
 	cfg := testutil.NewMOSNConfig(listeners, v2.ClusterManagerConfig{Clusters: clusters})
@@ -249,12 +259,23 @@ func runE2E(p *pki, mock *sdsMock, groups []*group, ups []tcase, out string, par
 		nh += len(g.hellos)
 	}
 	one := make([]byte, 1)
-	for j, tc := range ups {
+	for j, job := range ups {
+		tc := job.tc
+		// the first secrets of an SDS backed cluster, then the update history: cluster updates of the running MOSN
+		upLives[j].deliver()
+		upds := []vh.Ev{}
+		for _, upd := range tc.Upds {
+			uev, err := upLives[j].apply(upd, func(cfg *v2.TLSConfig) error {
+				return cluster.GetClusterMngAdapterInstance().TriggerClusterAddOrUpdate(mkCluster(j, cfg))
+			})
+			vh.Must(err, "e2e cluster update")
+			upds = append(upds, uev)
+		}
 		srvAddr := upAddr[j]
 		plainMu.Lock()
 		before := plainSeen[srvAddr]
 		plainMu.Unlock()
-		ev := vh.Ev{"ev": "up", "via": "e2e", "upplain": false, "upds": []vh.Ev{}, "cfg": vh.Ev{"sn": nonNil(tc.Cfg.Sn), "skip": tc.Cfg.Skip, "ca": tc.Cfg.Ca},
+		ev := vh.Ev{"ev": "up", "via": "e2e", "variant": job.variant, "upplain": false, "upds": upds, "cfg": upCfg0[j],
 			"cert": vh.Ev{"names": tc.Cert.Names, "ca": tc.Cert.Ca, "expired": tc.Cert.Expired}, "ok": false}
 		var lastErr error
 		for attempt := 0; attempt < 3; attempt++ {
